@@ -91,11 +91,18 @@ class Gen:
             else:
                 self.feats[f] = ch.chance(3, 5, "feat:" + f)
         self.budget = ch.int_between(P["size_lo"], P["size_hi"], "size")
-        n = ch.int_between(1, P["max_comps"], "n_comps")
-        self.comps = [None] * n
-        share = max(3, self.budget // (n + 1))
-        for i in reversed(range(n)):
-            self.comps[i] = self.compdef(i, share)
+        if P.get("reuse_comps"):
+            # another page over an existing component library (tasks of C07 that share classes)
+            import json as _json
+            self.comps = _json.loads(_json.dumps(P["reuse_comps"]))
+            n = len(self.comps)
+            share = max(3, self.budget // 2)
+        else:
+            n = ch.int_between(1, P["max_comps"], "n_comps")
+            self.comps = [None] * n
+            share = max(3, self.budget // (n + 1))
+            for i in reversed(range(n)):
+                self.comps[i] = self.compdef(i, share)
         page_scope = {"str": ["pa", "pb"], "list": ["pl"], "names": ["pn"], "bool": ["pt", "pf"], "aliases": []}
         pl = [f"e{k}" for k in range(ch.draw(4, "len_pl"))]
         if pl and ch.chance(1, 3, "pl_falsy"):
